@@ -24,6 +24,7 @@
 #include "gfqext.h"
 #include "extension.h"
 #include "gf2.h"
+#include "c05_alias.h"
 #include "modular.h"
 #include "givpoly1.h"
 
@@ -57,7 +58,7 @@ template <class Base> struct ExtS : public Session {
             std::vector<std::vector<std::string> > parts = split_bar(t, 5);
             Pol PD(B, "Y"); typename Pol::Element irr(parts[1].size());
             for (size_t i = 0; i < parts[1].size(); ++i) B.init(irr[i], (int64_t)strtoll(parts[1][i].c_str(), 0, 10));
-            F = new Ext(PD, irr);
+            Ext G(PD, irr); Ext H; H = G; F = new Ext(H);
         }
     }
     static Ext* mk_pe(unsigned long p, unsigned long k, GFqDom<int64_t>*) { Ext G((typename Ext::Residu_t)p, (typename Ext::Residu_t)k); return new Ext(G); }  // copy ctor
@@ -80,6 +81,13 @@ template <class Base> struct ExtS : public Session {
         return o.str();
     }
     std::string line(const std::vector<std::string>& t) {
+        if (t[0] == "eopa") {
+            Elt sl[4], vals[3];
+            for (int i = 0; i < 4; ++i) F->init(sl[i], Integer(7 + i));
+            for (size_t i = 3; i < t.size() && i < 6; ++i) vals[i - 3] = elt(t[i]);
+            if (!c05_fill(t[1], t[2], sl, vals) || !c05_call(*F, t[1], t[2], sl)) return "UNKNOWN-OP";
+            std::ostringstream o; o << val(sl[t[2][0] - '0']); return o.str();
+        }
         if (t[0] != "eop") return "BAD-LINE";
         const std::string& v = t[1];
         Elt a = elt(t.size() > 2 ? t[2] : "0"), b = elt(t.size() > 3 ? t[3] : "0"), c = elt(t.size() > 4 ? t[4] : "0"), r;
@@ -141,7 +149,11 @@ template <class Fld> struct GS : public Session {
     typedef typename Fld::Element Elt;
     typedef typename Conv<Fld>::T CT;
     Fld F;
-    GS(unsigned long p, unsigned long k) : F((typename Fld::Residu_t)p, (typename Fld::Residu_t)k) {}
+    GS(unsigned long p, unsigned long k) : F() {
+        Fld G((typename Fld::Residu_t)p, (typename Fld::Residu_t)k);
+        Fld H(G);        // copy constructor
+        F = H;           // hand-written operator=
+    }
     static Integer toI(const double& d) { return Integer(d); }
     static Integer toI(const Integer& d) { return d; }
     static void fromI(double& d, const Integer& i) { d = (double)i; }
@@ -166,6 +178,12 @@ template <class Fld> struct GS : public Session {
             else return "UNKNOWN-OP";
             o << (ll)r; return o.str();
         }
+        if (t[0] == "gopa") {
+            Elt sl[4] = {-91, -92, -93, -94}, vals[3] = {0, 0, 0};
+            for (size_t i = 3; i < t.size() && i < 6; ++i) vals[i - 3] = (Elt)strtoll(t[i].c_str(), 0, 10);
+            if (!c05_fill(t[1], t[2], sl, vals) || !c05_call(F, t[1], t[2], sl)) return "UNKNOWN-OP";
+            o << (ll)sl[t[2][0] - '0']; return o.str();
+        }
         if (t[0] == "gconv") { Elt a = (Elt)strtoll(t[1].c_str(), 0, 10); CT d; F.convert(d, a); o << toI(d); return o.str(); }
         if (t[0] == "ginit") { CT d; fromI(d, Integer(t[1].c_str())); Elt r = -99; F.init(r, d); return rp(r); }
         if (t[0] == "gdot") {
@@ -189,6 +207,22 @@ static std::string gf2_line(const std::vector<std::string>& t) {
         o << (int)F.cardinality() << " " << (int)F.characteristic() << " " << (int)F.size() << " " << (int)F.residu() << " " << F.zero << " " << F.one << " " << F.mOne
           << " " << ci << " " << chi << " " << F.minElement() << " " << F.maxElement();
         return o.str();
+    }
+    if (t[0] == "gf2a") {     // gf2a <variant> <e|b> <pattern> v1 v2 v3
+        bool vals[3] = {false, false, false};
+        for (size_t i = 4; i < t.size() && i < 7; ++i) vals[i - 4] = (t[i] == "1");
+        if (t[2] == "e") {
+            bool sl[4] = {true, false, true, false};
+            if (!c05_fill(t[1], t[3], sl, vals) || !c05_call(F, t[1], t[3], sl)) return "UNKNOWN-OP";
+            o << sl[t[3][0] - '0']; return o.str();
+        }
+        std::vector<bool> sl(6, true); sl[1] = false; sl[3] = false;
+        std::vector<bool> before(sl);
+        if (!c05_fill(t[1], t[3], sl, vals)) return "UNKNOWN-OP";
+        before = sl;
+        if (!c05_call(F, t[1], t[3], sl)) return "UNKNOWN-OP";
+        for (int i = 0; i < 6; ++i) if (i != t[3][0] - '0' && sl[i] != before[i]) return "OTHER-BIT-CHANGED";
+        o << sl[t[3][0] - '0']; return o.str();
     }
     const std::string& v = t[1]; bool useref = (t[2] == "b");
     bool a = t[3] == "1", b = t.size() > 4 && t[4] == "1", c = t.size() > 5 && t[5] == "1";
@@ -221,7 +255,7 @@ int main() {
         if (t.empty()) continue;
         std::string out;
         try {
-            if (t[0] == "gf2" || t[0] == "gf2desc") out = gf2_line(t);
+            if (t[0] == "gf2" || t[0] == "gf2desc" || t[0] == "gf2a") out = gf2_line(t);
             else if (t[0] == "ext") {
                 delete cur; cur = 0;
                 if (t[1] == "gfq") cur = new ExtS<GFqDom<int64_t> >(t); else cur = new ExtS<Modular<int64_t> >(t);
